@@ -245,3 +245,25 @@ def inlined_into(fa):
                 m[h] = b.path
         fa._inlined_into = m
     return m
+
+
+def force_inline(fa, body, names, depth=3):
+    """View of `body` with every call to one of `names` (normalised def paths) replaced by the callee's blocks, whether
+    or not the callee is an 'extracted helper'.  For rules about a mechanism that lives in a function and its named
+    helper (`apply_wal` + `apply_wal_record`): the rule is evaluated on the union, so inlining the helper by hand (or
+    extracting it again) does not change the verdict."""
+    cur = inlined(fa, body)
+    names = {strip_generics(n) for n in names}
+    for _ in range(depth * 8):
+        done = True
+        for i, t in cfg.calls(cur):
+            n = strip_generics(cfg.callee(t) or "")
+            if n in names:
+                h = fa.body(n)
+                if h is not None and not any(b["term"]["k"] in ("tailcall", "yield") for b in h.blocks):
+                    cur = Body(inline_call(cur.d, i, h), body.crate)
+                    done = False
+                    break
+        if done:
+            break
+    return cur
